@@ -6,7 +6,9 @@ re-evaluated here in Python on the fully written traces of the first schedules.
 Model side: coq/Raft (raftLog / unstable / storage contract / quorum arithmetic), extracted and
 diffed against the real raftLog, MemoryStorage and RocksStorage in `raftsim -mode log`.
 """
+import fcntl
 import glob
+import hashlib
 import json
 import os
 import shutil
@@ -41,6 +43,7 @@ def py_oracle(path):
     handed = {}       # node -> last handed index of this incarnation
     app_last = {}     # node -> last applied index of this incarnation
     was_leader = {}
+    granted = {}      # (node, term) -> candidate
     with open(path) as f:
         lines = f.readlines()
     for line in lines[1:]:
@@ -48,8 +51,25 @@ def py_oracle(path):
         ev, seq = r["ev"], r["s"]
         n = ev.get("n")
         if r.get("panic"):
-            out.append(("C03" if ev["k"] == "restart" else "C02", "panic", seq, r["panic"]))
+            out.append(("C02", "panic", seq, r["panic"]))
+            out.append(("C03", "panic", seq, r["panic"]))
         pre = nodes.get(n)
+        sd = r.get("sd")
+        for m in r.get("add", []):
+            mm = m["msg"]
+            if mm["type"] == 6 and not mm.get("reject"):
+                k = (mm["from"], mm["term"])
+                if granted.setdefault(k, mm["to"]) != mm["to"]:
+                    out.append(("C01", "double-vote", seq, "node %s term %s" % k))
+                granted[k] = mm["to"]
+                if sd is not None and not (sd["term"] > mm["term"] or (sd["term"] == mm["term"] and sd["vote"] == mm["to"])):
+                    out.append(("C01", "vote-not-durable", seq, "node %s" % mm["from"]))
+                    out.append(("C03", "vote-not-durable", seq, "node %s" % mm["from"]))
+            if mm["type"] == 4 and not mm.get("reject") and sd is not None:
+                if mm.get("index", 0) > sd["last"] and mm.get("index", 0) > sd["si"]:
+                    out.append(("C03", "ack-not-durable", seq, "node %s index %s" % (mm["from"], mm.get("index"))))
+                if sd["term"] < mm["term"]:
+                    out.append(("C03", "ack-term-not-durable", seq, "node %s" % mm["from"]))
         if "rd" in r:
             pending[n] = r["rd"]
             for mb in r["rd"].get("msgbodies", []):
@@ -118,6 +138,31 @@ def py_oracle(path):
                 if v[1] == 1 and v[0] in ns.get("learners", []):
                     if prev is None or v[0] not in [pv[0] for pv in prev.get("votes", [])]:
                         out.append(("C01", "learner-vote-counted", seq, "node %s from %s" % (i, v[0])))
+            if ns["role"] == 2 and prev is not None and prev.get("alive") and prev.get("role") == 2 and prev.get("term") == ns["term"] \
+                    and ns["commit"] > prev["commit"] and ns.get("log"):
+                c = ns["commit"]
+                k = c - ns["log"][0]["i"]
+                if 0 <= k < len(ns["log"]) and ns["log"][k]["i"] == c:
+                    te = ns["log"][k]["t"]
+                    have = 0
+                    for v in ns.get("voters", []):
+                        if v == i:
+                            have += 1
+                            continue
+                        d = (nodes.get(v) or {}).get("disk")
+                        if not d:
+                            continue
+                        if d["si"] > c or (d["si"] == c and d["st"] == te):
+                            have += 1
+                            continue
+                        lg = d.get("log", [])
+                        if lg:
+                            j = c - lg[0]["i"]
+                            if 0 <= j < len(lg) and lg[j]["i"] == c and lg[j]["t"] == te:
+                                have += 1
+                    if have < len(ns.get("voters", [])) // 2 + 1:
+                        out.append(("C02", "commit-without-quorum", seq, "leader %s index %d" % (i, c)))
+                        out.append(("C03", "commit-without-quorum", seq, "leader %s index %d" % (i, c)))
             if ns["role"] == 2:
                 t = ns["term"]
                 if leader_of.setdefault(t, i) != i:
@@ -152,6 +197,52 @@ def has_entry(ns, e):
 
 
 # --------------------------------------------------------------------------------------------
+def _sim_key(ctx, what):
+    """hash of everything the simulated runs depend on: the harness sources, the raft / engine / common packages of
+    the working tree (compiled into raftsim) and the two files the driver parses at run time"""
+    h = hashlib.sha1()
+    pats = [os.path.join(vlib.HARNESS, "internal", "raftdrv", "*.go"), os.path.join(vlib.HARNESS, "cmd", "raftsim", "*.go"),
+            os.path.join(vlib.HARNESS, "go.mod")]
+    for sub in ("raft", "raft/raftpb", "engine", "common", "wal", "node/raft.go"):
+        q = os.path.join(vlib.REPO, sub)
+        pats.append(q if q.endswith(".go") else os.path.join(q, "*.go"))
+    for pat in pats:
+        for f in sorted(glob.glob(pat)):
+            if f.endswith("_test.go"):
+                continue
+            h.update(f.encode())
+            h.update(open(f, "rb").read())
+    h.update(json.dumps([ctx.seed, ctx.tier, what]).encode())
+    return h.hexdigest()
+
+
+def cached_raftsim(ctx, name, args, timeout=3000):
+    """Run raftsim once per (binary, node/raft.go, wal/wal.go, seed, tier, args) and share the output directory
+    between the C01/C02/C03 checks: the binary is rebuilt by every check, so a change of /repo or of the
+    harness changes the key and the run is redone. Returns (rc, out, summary, dir)."""
+    base = os.path.join(vlib.BUILD, "run", "raft-shared", "%d-%s" % (ctx.seed, ctx.tier))
+    os.makedirs(base, exist_ok=True)
+    d = os.path.join(base, name)
+    key = _sim_key(ctx, args)
+    with open(os.path.join(base, name + ".lock"), "w") as lf:
+        fcntl.flock(lf, fcntl.LOCK_EX)
+        try:
+            kp = os.path.join(base, name + ".key")
+            if os.path.exists(kp) and open(kp).read() == key and os.path.exists(os.path.join(d, "done")):
+                sp = os.path.join(d, "summary.json")
+                summ = json.load(open(sp)) if os.path.exists(sp) else None
+                return 0, "(cached)", summ, d
+            if os.path.exists(kp):
+                os.remove(kp)
+            rc, out, summ, _ = run_raftsim(args, d, timeout=timeout)
+            if rc == 0:
+                open(os.path.join(d, "done"), "w").write("1")
+                open(kp, "w").write(key)
+            return rc, out, summ, d
+        finally:
+            fcntl.flock(lf, fcntl.LOCK_UN)
+
+
 def run_raftsim(args, outdir, timeout=3000):
     shutil.rmtree(outdir, ignore_errors=True)
     os.makedirs(outdir)
@@ -284,8 +375,13 @@ def run(ctx, prop):
 
     # ---- 1. the model correspondence: real raftLog / storages vs the extracted model ----
     nlog = 400 if quick else 6000
+    rc, out, _, dlog = cached_raftsim(ctx, "log", "-mode log -seed %d -n %d" % (ctx.seed, nlog))
     d = os.path.join(work, "log")
-    rc, out, _, _ = run_raftsim("-mode log -seed %d -n %d" % (ctx.seed, nlog), d)
+    shutil.rmtree(d, ignore_errors=True)
+    os.makedirs(d)
+    if rc == 0:
+        for fn in ("cases.tsv", "impl.out", "oracle.out"):
+            shutil.copy(os.path.join(dlog, fn), os.path.join(d, fn))
     if rc != 0:
         log("HARNESS RUN FAILED (log mode):\n" + out[-3000:])
         raise SystemExit(2)
@@ -323,11 +419,11 @@ def run(ctx, prop):
 
     # ---- 3. generated schedules ----
     if not (ctx.replay and scen_files and json.load(open(ctx.replay)).get("case", {}).get("scenario")):
-        plans = [("mem", 240, 1200, 6), ("rocks-mem", 30, 900, 0)] if quick else \
-                [("mem", 4000, 1500, 10), ("rocks-mem", 300, 1200, 0), ("rocks-pebble", 60, 800, 0)]
+        plans = [("mem", 200, 1100, 6), ("rocks-mem", 24, 700, 0)] if quick else \
+                [("mem", 3000, 1500, 10), ("rocks-mem", 300, 1200, 0), ("rocks-pebble", 40, 800, 0)]
         for storage, n, events, ntr in plans:
-            dd = os.path.join(work, "sim-" + storage)
-            rc, out, summ, dt = run_raftsim("-mode sim -seed %d -n %d -events %d -trace %d -storage %s" % (ctx.seed, n, events, ntr, storage), dd)
+            rc, out, summ, dd = cached_raftsim(ctx, "sim-" + storage,
+                                               "-mode sim -seed %d -n %d -events %d -trace %d -storage %s" % (ctx.seed, n, events, ntr, storage))
             if not summ:
                 log("HARNESS RUN FAILED (sim %s):\n" % storage + out[-3000:])
                 raise SystemExit(2)
@@ -346,8 +442,7 @@ def run(ctx, prop):
                 if bool(pv) != bool(gv):
                     mism.append(("oracle-crosscheck:" + os.path.basename(tp), json.dumps(gv)[:300], json.dumps(pv)[:300]))
         if not quick:
-            dd = os.path.join(work, "crashpoints")
-            rc, out, summ, dt = run_raftsim("-mode crashpoints -seed %d -n %d -events %d" % (ctx.seed, 12, 260), dd)
+            rc, out, summ, dd = cached_raftsim(ctx, "crashpoints", "-mode crashpoints -seed %d -n %d -events %d" % (ctx.seed, 10, 220))
             if not summ:
                 log("HARNESS RUN FAILED (crashpoints):\n" + out[-3000:])
                 raise SystemExit(2)
